@@ -21,8 +21,8 @@ Local Open Scope nat_scope.
      |dA| <= (3 gam n + gam n^2) P^T |L^||U^|,  |db| <= gam n |b|   (in IEEE arithmetic P b is exact; the pure standard
      model charges its rounding to b), L^, U^, P the COMPUTED factors and permutation, pivots nonzero.
    NOT COVERED (stated, not proved): the comparison of |L^||U^| with |A| -- that, and only that, is where the growth
-   factor of Gaussian elimination with partial pivoting enters (Higham sec. 9.3-9.4); the factorisation half of
-   solve_basic (gauss_with_pivot does not store its multipliers: only its back substitution is covered); that IEEE
+   factor of Gaussian elimination with partial pivoting enters (Higham sec. 9.3-9.4); runs of solve_basic in which a
+   pivot search meets an all-zero column (the known quirk of max_abs_in_column: its index starts at row 0); that IEEE
    binary64 obeys the standard model absent underflow/overflow is re-proved for the two triangular solves (second
    block), dot and multiply (Props/C15.v, Props/C03.v), not for the factorisation.
    ====================================================================================================== *)
@@ -483,6 +483,72 @@ Example solve_lu_backward_error_gam3n_nonvacuous :   (* the instance of solve_lu
 Proof.
   split; [exact ux_range|]. split; [reflexivity|]. split; [cbn; pose proof ux_small; lra|].
   split; [exact ex_lu_decomp|]. split; [exact ex_lu2_diag|exact ex_solve_lu].
+Qed.
+
+(* ---- solve_basic as a whole (Higham Theorem 9.4 for elimination on the augmented system), standard model ----
+   (A + dA) x^ = b EXACTLY in b; L^ = the multipliers the elimination used (not stored by the code, hence existential),
+   U^ = the computed echelon form; g = gam (n+1).  The first alternative of the conclusion is the run in which a pivot
+   search met an all-zero column ([BadRun]: a prefix of the run and the zero column are exhibited). *)
+From OV Require Import Proofs.RoundGaussTrace Proofs.RoundSolveBasic Proofs.RoundExamples3.
+
+Theorem solve_basic_backward_error : forall (u : R), (0 <= u < 1)%R ->
+  forall (fadd fsub fmul fdiv : R -> R -> R),
+  (forall x y : R, exists d : R, (Rabs d <= u)%R /\ fsub x y = ((x - y) * (1 + d))%R) ->
+  (forall x y : R, exists d : R, (Rabs d <= u)%R /\ fmul x y = (x * y * (1 + d))%R) ->
+  (forall x y : R, y <> 0%R -> exists d : R, (Rabs d <= u)%R /\ fdiv x y = (x / y * (1 + d))%R) ->
+  forall (m m' : matrix (ARm fadd fsub fmul fdiv)) (b b' x : list R),
+  Proofs.Matrix.wf m -> (INR (S (rows m)) * u < 1)%R ->
+  gauss_with_pivot m b = Ok (m', b') ->
+  (forall k, (k < rows m)%nat -> rentry fadd fsub fmul fdiv m' k k <> 0%R) ->
+  solve_basic m b = Ok x ->
+  length x = rows m /\
+  (BadRun fadd fsub fmul fdiv m b (rows m) (rows m - 1) \/
+   exists (tau : nat -> nat) (L : nat -> nat -> R),
+     (forall r, (r < rows m)%nat -> (tau r < rows m)%nat) /\
+     (forall r r', (r < rows m)%nat -> (r' < rows m)%nat -> tau r = tau r' -> r = r') /\
+     (forall i, L i i = 1%R) /\ (forall i k, (i < k)%nat -> L i k = 0%R) /\
+     exists dA : nat -> nat -> R,
+       (forall i c, (i < rows m)%nat -> (c < rows m)%nat ->
+          (Rabs (dA i c) <= (3 * gam u (S (rows m)) + gam u (S (rows m)) * gam u (S (rows m)))
+                            * Rsum (rows m) (fun k => Rabs (L i k) * Rabs (triu fadd fsub fmul fdiv m' k c)))%R) /\
+       (forall i, (i < rows m)%nat ->
+          Rsum (rows m) (fun c => ((rentry fadd fsub fmul fdiv m (tau i) c + dA i c) * nth c x 0)%R)
+          = nth (tau i) b 0%R)).
+Proof. intros u Hu fadd fsub fmul fdiv Hs Hm Hd m m' b b' x. exact (solve_basic_backward_error_lemma u Hu fadd fsub fmul fdiv Hs Hm Hd m m' b b' x). Qed.
+Check solve_basic_backward_error : forall (u : R), (0 <= u < 1)%R ->
+  forall (fadd fsub fmul fdiv : R -> R -> R),
+  (forall x y : R, exists d : R, (Rabs d <= u)%R /\ fsub x y = ((x - y) * (1 + d))%R) ->
+  (forall x y : R, exists d : R, (Rabs d <= u)%R /\ fmul x y = (x * y * (1 + d))%R) ->
+  (forall x y : R, y <> 0%R -> exists d : R, (Rabs d <= u)%R /\ fdiv x y = (x / y * (1 + d))%R) ->
+  forall (m m' : matrix (ARm fadd fsub fmul fdiv)) (b b' x : list R),
+  Proofs.Matrix.wf m -> (INR (S (rows m)) * u < 1)%R ->
+  gauss_with_pivot m b = Ok (m', b') ->
+  (forall k, (k < rows m)%nat -> rentry fadd fsub fmul fdiv m' k k <> 0%R) ->
+  solve_basic m b = Ok x ->
+  length x = rows m /\
+  (BadRun fadd fsub fmul fdiv m b (rows m) (rows m - 1) \/
+   exists (tau : nat -> nat) (L : nat -> nat -> R),
+     (forall r, (r < rows m)%nat -> (tau r < rows m)%nat) /\
+     (forall r r', (r < rows m)%nat -> (r' < rows m)%nat -> tau r = tau r' -> r = r') /\
+     (forall i, L i i = 1%R) /\ (forall i k, (i < k)%nat -> L i k = 0%R) /\
+     exists dA : nat -> nat -> R,
+       (forall i c, (i < rows m)%nat -> (c < rows m)%nat ->
+          (Rabs (dA i c) <= (3 * gam u (S (rows m)) + gam u (S (rows m)) * gam u (S (rows m)))
+                            * Rsum (rows m) (fun k => Rabs (L i k) * Rabs (triu fadd fsub fmul fdiv m' k c)))%R) /\
+       (forall i, (i < rows m)%nat ->
+          Rsum (rows m) (fun c => ((rentry fadd fsub fmul fdiv m (tau i) c + dA i c) * nth c x 0)%R)
+          = nth (tau i) b 0%R)).
+Print Assumptions solve_basic_backward_error.
+(* [[2,1],[0,3]] x = [1,1] in the arithmetic that rounds every operation: the run is not the excluded one *)
+Example solve_basic_backward_error_nonvacuous :
+  (0 <= ux < 1)%R /\ Proofs.Matrix.wf ex_m2 /\ (INR (S (rows ex_m2)) * ux < 1)%R /\
+  gauss_with_pivot ex_m2 ex_b2 = Ok (ex_g2, ex_gb2) /\
+  (forall k, (k < rows ex_m2)%nat -> rentry xadd xsub xmul xdiv ex_g2 k k <> 0%R) /\
+  (exists x, solve_basic ex_m2 ex_b2 = Ok x) /\
+  ~ BadRun xadd xsub xmul xdiv ex_m2 ex_b2 (rows ex_m2) (rows ex_m2 - 1).
+Proof.
+  split; [exact ux_range|]. split; [reflexivity|]. split; [exact ex_size3|]. split; [exact ex_gauss|].
+  split; [exact ex_g2_diag|]. split; [exact ex_solve_basic|exact ex_no_badrun].
 Qed.
 
 (* ---------- Props/pending/C02_round.v.txt ---------- *)
